@@ -1,6 +1,6 @@
 """C14 - migrating merchant_categories.csv to merchants.rules preserves classification.
 
-Exhaustive: every single-row CSV over the full product {24 regex patterns} x {16 modifier forms} x
+Exhaustive: every single-row CSV over the full product {24 regex patterns} x {18 modifier forms} x
 {merchant names} x {category set / empty} x {tags}, plus every ordered pair (triple in thorough) over a
 reduced row alphabet; each file x the transactions its patterns and modifiers can distinguish (descriptions
 x boundary amounts x boundary dates).  The real migration (_migrate_csv_to_rules) is run in a scratch
@@ -21,8 +21,8 @@ PROPERTY = "C14"
 LEVEL = "exploration"
 RULE = ("cases = (a) every one-row CSV rule file over 24 patterns (plain, lookahead, \\b, back-reference, anchors, alternation, leading "
         "parenthesis, .*, char class, double quote, apostrophe, escaped +, literal backslash, \\d{3}, ' and ' inside a pattern, invalid regex) x "
-        "16 modifier forms (none, amount > >= < <= = range, date = range lastNdays, month, two combined) x 3 merchant names x category "
-        "set/empty x 3 tag forms; (b) every ordered pair (quick) / triple (thorough) over a 24-row reduced alphabet incl. comment and blank "
+        "18 modifier forms (none, amount > >= < <= = range, date = range lastNdays, month, two combined) x 4 merchant names x category "
+        "set/empty x 3 tag forms; (b) every ordered pair (quick) / triple (thorough) over a 27-row reduced alphabet incl. comment and blank "
         "lines. Each file is classified on descriptions x boundary amounts x boundary dates (only the dimensions its rows can "
         "distinguish). non-trivial = file whose rules match at least one transaction and not all of them; files distinct by construction")
 ASSUMPTIONS = ["a CSV file is 'accepted' when load_merchant_rules returns without raising",
@@ -36,10 +36,10 @@ PATTERNS = ["NETFLIX", r"UBER\s(?!EATS)", r"\bUBER\b", r"(\w)\1", "^AMAZON", "GA
             "PIZZA \U0001F355", "STRASSE", "Straße"]
 MODS = ["", "[amount>100]", "[amount>=100]", "[amount<100]", "[amount<=100]", "[amount=99.75]", "[amount:50-200]",
         "[date=2025-01-15]", "[date:2025-01-01..2025-01-31]", "[month=12]", "[date:last30days]",
-        "[amount>100][month=1]", "[amount:50-200][date:2025-01-01..2025-01-31]",
+        "[amount>100][month=1]", "[amount:50-200][date:2025-01-01..2025-01-31]", "[amount>100][date:last30days]", "[date:last30days][month=1]",
         # operands with more than six significant digits (exact rendering of the number matters)
         "[amount>12345.67]", "[amount=12345.67]", "[amount:1000000.5-2500000.25]"]
-NAMES = ["Netflix", "A, B", "#Hash"]
+NAMES = ["Netflix", "A, B", "#Hash", " Padded "]
 TAGS = ["", "a|b", "A"]
 DESCS = ["NETFLIX.COM 123", "UBER EATS", "UBER TRIP 77", "UBERX", "AMAZON MKTP", "PAY AMZN", "COSTCO GAS", "BLUE BOTTLE COFFEE",
          'SAY "HI" CAFE', "O'REILLY AUTO", "C++ BOOKS", "A\\B STORE", "cost plus gas", "BED and BATH", "AB",
@@ -61,7 +61,11 @@ REDUCED = ([{"pattern": p, "merchant": f"M{i}", "category": "Cat", "subcategory"
             # rows that are identical except for their modifiers
             {"pattern": "COSTCO[month=1]", "merchant": "Same", "category": "Shop", "subcategory": "Same", "tags": "same"},
             {"pattern": "COSTCO[month=12]", "merchant": "Same", "category": "Shop", "subcategory": "Same", "tags": "same"},
-            {"pattern": "COSTCO[amount>100]", "merchant": "Same", "category": "Shop", "subcategory": "Same", "tags": "same"}])
+            {"pattern": "COSTCO[amount>100]", "merchant": "Same", "category": "Shop", "subcategory": "Same", "tags": "same"},
+            # short rows (trailing cells absent) and names padded with blanks
+            {"pattern": "NETFLIX", "merchant": "Short3", "category": "Subs", "cells": 3},
+            {"pattern": "UBER", "merchant": "Short2", "cells": 2},
+            {"pattern": "COSTCO", "merchant": " Padded Name ", "category": " Padded Cat ", "subcategory": " Padded Sub ", "tags": " t1 | t2 "}])
 
 
 def bounds(tier):
